@@ -249,7 +249,17 @@ impl McnkChunk {
         // TODO: Add split file support with chunk discovery
         let materials = None;
 
-        let refs = if header.has_refs() {
+        // ofs_refs is shared by MCRF (monolithic files) and MCRD/MCRW (split files):
+        // look at the tag of the sub-chunk it points at instead of reading it three times
+        let refs_id = if header.has_refs() {
+            peek_subchunk_id(reader, mcnk_start_offset, header.ofs_refs)
+        } else {
+            None
+        };
+        let refs = if header.has_refs()
+            && refs_id != Some(ChunkId::MCRD)
+            && refs_id != Some(ChunkId::MCRW)
+        {
             let data = read_subchunk(reader, mcnk_start_offset, header.ofs_refs, "MCRF")?;
             if !data.is_empty() {
                 Some(McrfChunk::read_le(&mut std::io::Cursor::new(data))?)
@@ -262,7 +272,7 @@ impl McnkChunk {
 
         // MCRD shares ofs_refs with MCRF (Cataclysm+ split files)
         // TODO: Add version/file-type detection to distinguish MCRF vs MCRD
-        let doodad_refs = if header.has_refs() {
+        let doodad_refs = if header.has_refs() && refs_id == Some(ChunkId::MCRD) {
             let data = read_subchunk(reader, mcnk_start_offset, header.ofs_refs, "MCRF")?;
             if !data.is_empty() {
                 Some(McrdChunk::read_le(&mut std::io::Cursor::new(data))?)
@@ -275,7 +285,7 @@ impl McnkChunk {
 
         // MCRW shares ofs_refs with MCRF (Cataclysm+ split files)
         // TODO: Add version/file-type detection to distinguish MCRF vs MCRD/MCRW
-        let wmo_refs = if header.has_refs() {
+        let wmo_refs = if header.has_refs() && refs_id == Some(ChunkId::MCRW) {
             let data = read_subchunk(reader, mcnk_start_offset, header.ofs_refs, "MCRF")?;
             if !data.is_empty() {
                 Some(McrwChunk::read_le(&mut std::io::Cursor::new(data))?)
@@ -476,6 +486,18 @@ impl McnkChunk {
 ///
 /// Seeks to the specified offset (relative to MCNK chunk start), reads the
 /// subchunk header, and returns the subchunk data.
+/// Tag of the sub-chunk whose header starts `offset` bytes after the MCNK chunk header start.
+fn peek_subchunk_id<R: Read + Seek>(
+    reader: &mut R,
+    mcnk_start_offset: u64,
+    offset: u32,
+) -> Option<ChunkId> {
+    reader
+        .seek(SeekFrom::Start(mcnk_start_offset + u64::from(offset)))
+        .ok()?;
+    ChunkHeader::read_le(reader).ok().map(|h| h.id)
+}
+
 fn read_subchunk<R: Read + Seek>(
     reader: &mut R,
     mcnk_start_offset: u64,
